@@ -30,6 +30,53 @@ func init() {
 	extraKinds["scale"] = runScale
 	extraKinds["docscale"] = runDocScale
 	extraKinds["count"] = runCount
+	extraKinds["expgrowth"] = runExpGrowth
+}
+
+// runExpGrowth: a family pre^d core post^d whose value does not depend on d
+// (checked by the specification for small d).  Polynomial cost means that two
+// more levels cost a little more; exponential cost means they cost a multiple.
+// Measured at d = 12, 14, 16, 18 (minimum of 3 runs each): a violation when
+// every step multiplies the time by 3 or more and the last one is measurable.
+func runExpGrowth(m map[string]any) Result {
+	pre, _ := cpsToString(m["pre"])
+	core, _ := cpsToString(m["core"])
+	post, _ := cpsToString(m["post"])
+	family := getString(m, "family")
+	doc, err := fromJSON(m["doc"])
+	if err != nil {
+		return Result{Class: "harness", Detail: err.Error()}
+	}
+	adm, err := decodeAdm(m["adm"])
+	if err != nil {
+		return Result{Class: "harness", Detail: err.Error()}
+	}
+	var times []time.Duration
+	for _, d := range []int{12, 14, 16, 18} {
+		text := strings.Repeat(pre, d) + core + strings.Repeat(post, d)
+		x := measureSearch(text, doc, 3)
+		if x.c.panicked {
+			r := fail("panic", x.c.out, fmt.Sprintf("family %s depth %d: %s", family, d, firstLines(x.c.stack, 12)))
+			r.Site = x.c.site
+			return r
+		}
+		if !admits(adm, x.c.out) {
+			return fail("mismatch", x.c.out, fmt.Sprintf("family %s depth %d: outcome outside the admissible set", family, d))
+		}
+		times = append(times, x.dur)
+	}
+	exp := times[3] > 5*time.Millisecond
+	for i := 1; i < len(times); i++ {
+		if times[i] < 3*times[i-1] {
+			exp = false
+		}
+	}
+	if exp {
+		r := fail("cost", nil, fmt.Sprintf("family %s: every two further levels multiply the time (%v, %v, %v, %v at depths 12, 14, 16, 18) while expression, document and result stay small", family, times[0], times[1], times[2], times[3]))
+		r.GotS = "exponential"
+		return r
+	}
+	return Result{OK: true, Pinned: true, GotS: fmt.Sprintf("%s: %v", family, times)}
 }
 
 // runCount: a family whose value is its repetition count, at the boundaries
